@@ -4,7 +4,7 @@ import logging
 import os
 import tempfile
 
-from protocol import (enc_ints, enc_many, enc_msg, enc_msgs, enc_opt_ints, p_bool, p_err, p_int, p_msgs,
+from protocol import (enc_ints, enc_many, enc_msg, enc_msgs, enc_opt_ints, p_bool, p_err, p_int, p_msgs, from_real,
                       p_pairing, to_real, w, KEY_IDX, KEYS, MT, MT_RANK)
 
 logging.disable(logging.CRITICAL)
@@ -419,6 +419,15 @@ class TkCfg:
             self._tk = TkCfg._CACHE[key]
         return self._tk
 
+    def fresh(self):
+        """a newly constructed tokeniser (not the harness's cached instance): used when the order in which tokenisers are
+        built in one process is part of the input"""
+        kw = dict(self.kw)
+        kw["step_sizes"] = None if kw["step_sizes"] is None else list(kw["step_sizes"])
+        kw["note_values"] = None if kw["note_values"] is None else list(kw["note_values"])
+        self._tk = Tokeniser(**kw)
+        return self._tk
+
     def words(self):
         t = self.tk()
         return ([w(t.ppqn), w(t.num_tracks), w(t.pitch_range[0]), w(t.pitch_range[1])]
@@ -426,6 +435,52 @@ class TkCfg:
                 + [w(t.time_signature_range[0]), w(t.time_signature_range[1]),
                    w(t.flag_running_values), w(t.flag_fuse_track), w(t.flag_fuse_value),
                    w(t.flag_fuse_velocity), w(t.flag_simplify_time_signature)])
+
+
+SEQ_STATES = ["rel", "abs", "both", "stale-rel", "stale-abs"]
+
+
+def seq_in_state(rel, state):
+    """a Sequence whose content is the relative list `rel`, in one of the freshness states the wrapper can be in:
+    rel / abs (only that view exists), both (both fresh), stale-rel / stale-abs (that view object exists but is outdated and
+    holds *other* content; the other view is the fresh one).  An operation that reads a stale view shows up at once."""
+    want = seq_of_rel(rel)
+    if state == "rel":
+        return want
+    a = [from_real(m) for m in want.copy().abs._messages]
+    if state == "abs":
+        return Sequence(absolute_sequence=mk_abs(a))
+    if state == "both":
+        want.refresh()
+        return want
+    g = [(8, 0, 7, None, None, None, None, None, None, None)] + [
+        ((m[0], m[1], m[2], (m[3] + 1 if m[3] is not None and m[3] < 127 else m[3])) + tuple(m[4:])) for m in rel]
+    if state == "stale-rel":
+        s = seq_of_rel(g)
+        s.rel                               # materialise the (soon outdated) relative view
+        s.overwrite_absolute_messages([to_real(m) for m in a])
+        return s
+    if state == "stale-abs":
+        s = seq_of_rel(g)
+        s.abs                               # materialise the (soon outdated) absolute view
+        s.overwrite_relative_messages([to_real(m) for m in rel])
+        return s
+    raise ValueError(state)
+
+
+def content_of(s):
+    """the sequence's content read through a copy (so that reading does not refresh any view of `s` itself)"""
+    return [from_real(m) for m in s.copy().rel._messages]
+
+
+def warm_up(before):
+    """replayable process history for the tokeniser oracles: the pieces tokenised (statelessly, whole) earlier in the
+    process.  On correct code this has no effect on what follows; if state leaks between calls, the leak is part of the input."""
+    for b in before or []:
+        try:
+            TkCfg(**b["cfg"]).tk().tokenise([seq_of_rel([tuple(m) for m in t]) for t in b["tracks"]])
+        except Exception:
+            pass
 
 
 STATE_KEYS = ["cur_time", "cur_time_bar", "cur_time_signature_numerator", "cur_time_signature_denominator",
